@@ -297,6 +297,20 @@ def rule_filter_both(ctx: Ctx) -> None:
         elif E and has_gt and Gv:
             ok = len(ap) == 1 and S(ap[0].args[0]) == res
             ctx.check(ok, "C03-filter-both", "filter_object_results", "keep:both-pass", f"a result whose estimate and ground truth both pass is not kept exactly once as itself", fi=fi)
+        gt_none = fact_where(bp, lambda k: k == f"none:{res}.ground_truth_object")
+        if has_gt is False and gt_none is False:
+            continue  # artefact: a ground truth that is not None but falsy (DynamicObject defines neither __bool__ nor __len__)
+        if E and has_gt is False:
+            uu = fact_where(bp, lambda k: S(k) == "truthy:target_uuids")
+            ctx.check(Gv is None, "C03-filter-both", "filter_object_results", "no-gt:predicate-on-none", "the ground-truth predicate is evaluated for a result that has no ground truth", fi=fi)
+            if uu is None:
+                ctx.violate("C03-filter-both", "filter_object_results", "no-gt:uuid-selection-ignored",
+                            f"a GT-less result whose estimate passes is {'kept' if ap else 'dropped'} without looking at target_uuids: with a uuid selection it must be dropped (it cannot be one of the selected ground truths), without one kept", fi=fi)
+            else:
+                ctx.check(bool(ap) == (not uu) and (not ap or (len(ap) == 1 and S(ap[0].args[0]) == res)), "C03-filter-both", "filter_object_results", f"no-gt:target_uuids={int(bool(uu))}",
+                          f"a GT-less result whose estimate passes is {'kept' if ap else 'dropped'} with target_uuids {'given' if uu else 'absent'}; expected {'dropped' if uu else 'kept'}", fi=fi)
+        if has_gt is None and E:
+            ctx.violate("C03-filter-both", "filter_object_results", "gt-presence-untested", f"path [{bp.cond_text()[:100]}] decides without testing whether the result has a ground truth", fi=fi)
         if E is None:
             ctx.violate("C03-filter-both", "filter_object_results", "est-unchecked", f"path [{bp.cond_text()[:100]}] decides without checking the estimate", fi=fi)
         if E and has_gt and Gv is None:
